@@ -55,7 +55,7 @@ func runC01(c *Ctx) {
 	nmut := ch.Range(0, 6, "nmut")
 	muts := make([]int, nmut)
 	for i := range muts {
-		muts[i] = ch.Pick(9, "mut")
+		muts[i] = ch.Pick(10, "mut")
 	}
 	var rnd [32]byte
 	ch.Bytes(rnd[:], "random")
@@ -65,6 +65,7 @@ func runC01(c *Ctx) {
 	gdata := make([]byte, ch.Range(0, 20, "glen"))
 	ch.Bytes(gdata, "gdata")
 	swapAt := ch.Pick(64, "swap-at")
+	oddSNI := []string{"", "192.0.2.1", "2001:db8::5", "[2001:db8::5]", "dotted.example.test."}[ch.Pick(5, "odd-sni")]
 	forceHRR := ch.Bool(35, "hrr")
 	history := ch.Bool(30, "history")
 	srvMax := []uint16{tls.VersionTLS13, tls.VersionTLS12}[ch.Pick(3, "srvmax")%2]
@@ -103,6 +104,7 @@ func runC01(c *Ctx) {
 			suites    []uint16
 			sid       []byte
 			sidSet    bool
+			sniAbsent bool
 			before    *wire.ClientHello
 		}
 		var ex expect
@@ -135,7 +137,23 @@ func runC01(c *Ctx) {
 						u.SetSNI("edited.example.test")
 						s := "edited.example.test"
 						ex.sni = &s
+						ex.sniAbsent = false
 						mnames = append(mnames, "sni")
+					}
+				case 9:
+					// SetSNI with a value that is not a legal host_name clears the extension; a
+					// trailing dot is dropped (RFC 6066 section 3)
+					if b.SNIPresent {
+						u.SetSNI(oddSNI)
+						if legalHostName(oddSNI) {
+							s := strings.TrimRight(oddSNI, ".")
+							ex.sni = &s
+							ex.sniAbsent = false
+						} else {
+							ex.sni = nil
+							ex.sniAbsent = true
+						}
+						mnames = append(mnames, "sni-odd")
 					}
 				case 2:
 					if !ex.generic && len(b.PSKIdentities) == 0 && b.ExtIndex(41) < 0 {
@@ -259,6 +277,19 @@ func runC01(c *Ctx) {
 		}
 		if ex.sni != nil && (!h.SNIPresent || h.SNI != *ex.sni) {
 			c.Violate("edit-not-on-wire sni", "%s: wire SNI %q present=%v want %q", c.R.Class, h.SNI, h.SNIPresent, *ex.sni)
+		}
+		if ex.sniAbsent {
+			if h.SNIPresent {
+				c.Violate("edit-not-on-wire sni-cleared", "%s: SetSNI(%q) must remove server_name, wire still has %q", c.R.Class, oddSNI, h.SNI)
+			}
+			// the expected type sequence loses server_name
+			var nt []uint16
+			for _, x := range ex.types {
+				if x != 0 {
+					nt = append(nt, x)
+				}
+			}
+			ex.types = nt
 		}
 		if ex.generic {
 			if e, ok := h.Ext(0x4101); !ok || !bytes.Equal(e.Data, gdata) {
